@@ -123,6 +123,8 @@ class FakeDispatcher(object):
         self.chunks = []    # bytes passed to sendData, in call order
         self.endpoint = None
         self.open = False
+        self.fail_write_in = None   # n: the (n+1)-th next write fails as a lost connection
+        self.write_failures = 0
 
     def connect(self, endpoint):
         self.endpoint = endpoint
@@ -133,6 +135,17 @@ class FakeDispatcher(object):
         self.callbacks.onDisconnected()
 
     def sendData(self, data):
+        if self.fail_write_in is not None:
+            # the socket write fails with a connection-lost error: both shipped dispatchers report that
+            # SYNCHRONOUSLY, from inside sendData on the sending thread (asyncore: send() maps EPIPE / ECONNRESET to
+            # handle_close() -> connectionCallbacks.onDisconnected(); the socket dispatcher calls disconnect())
+            if self.fail_write_in == 0:
+                self.fail_write_in = None
+                self.write_failures += 1
+                self.open = False
+                self.callbacks.onDisconnected()
+                return
+            self.fail_write_in -= 1
         with self.cond:
             self.chunks.append(bytes(data))
             self.cond.notify_all()
@@ -464,6 +477,19 @@ class Rig(object):
         if self.noise._wa_noiseprotocol.state != "transport":
             raise RigError("noise layer state %r after handshake" % self.noise._wa_noiseprotocol.state)
         self.connected = True
+
+    def arm_socket_failure(self, nth_write=0):
+        """the (nth_write+1)-th next dispatcher write fails: connection lost, reported from inside sendData"""
+        self.dispatcher.fail_write_in = nth_write
+
+    def after_socket_failure(self):
+        """the stack loop delivers the deferred DISCONNECTED; the rig forgets the connection"""
+        fired = self.dispatcher.write_failures
+        self.dispatcher.fail_write_in = None
+        if fired:
+            self._drain_detached()
+            self.connected = False
+        return fired
 
     def disconnect(self):
         from yowsup.layers import YowLayerEvent
